@@ -231,6 +231,40 @@ def run(model: Model, rep: Report) -> None:
     # path is rebuilt from name inside the loop
     okb = bool(loops) and any(isinstance(s, ast.Assign) and unparse(s.targets[0]) == "path" for s in loops[0].body) and any(isinstance(s, ast.AugAssign) and isinstance(s.op, ast.Add) for s in loops[0].body)
     r3.check(okl and okr and okb, site(un), un.qualname, "candidate names are tried until os.path.exists(path) is false; the returned path is the tested one", why=f"loop={okl} return={okr} rebuild={okb}")
+    # path-sensitive form: on every path into a return, the last event on the returned path variable is the false edge of the
+    # existence test - no assignment to it (or to the name it is built from) lies between the test and the return
+    g = build_cfg(un.node, exc_edges=False)
+    ret_nodes = [g.node_of(r) for r in rets if g.node_of(r) is not None]
+    pvars: set = set()
+    for r in rets:
+        if isinstance(r.value, ast.Tuple):
+            pvars |= {e.id for e in r.value.elts if isinstance(e, ast.Name)}
+        elif isinstance(r.value, ast.Name):
+            pvars.add(r.value.id)
+
+    def _is_exists_test(n) -> bool:
+        return n.kind == "test" and n.ast is not None and any(isinstance(c, ast.Call) and (dotted(c.func) or "") in ("os.path.exists", "os.path.lexists") and c.args and isinstance(c.args[0], ast.Name) and c.args[0].id in pvars for c in ast.walk(n.ast))
+
+    def _assigned(n) -> set:
+        out: set = set()
+        if n.kind == "stmt" and isinstance(n.ast, (ast.Assign, ast.AugAssign, ast.AnnAssign)):
+            for t in n.ast.targets if isinstance(n.ast, ast.Assign) else [n.ast.target]:
+                out |= {x.id for x in ast.walk(t) if isinstance(x, ast.Name)}
+        return out
+
+    tests = [n for n in g.nodes if _is_exists_test(n)]
+    bad_paths = []
+    for n in g.nodes:
+        if _assigned(n) & pvars:
+            w = g.all_path_pass(n.id, _is_exists_test, until=ret_nodes)
+            if w is not None:
+                bad_paths.append(f"line {n.lineno}: `{unparse(n.ast)[:60]}` reaches the return without an existence test")
+    for t in tests:
+        for (m, lab) in g.succ[t.id]:
+            if lab == "true":
+                if m in ret_nodes or g.all_path_pass(m, lambda x: bool(_assigned(x) & pvars) or _is_exists_test(x), until=ret_nodes) is not None and not (_assigned(g.nodes[m]) & pvars):
+                    bad_paths.append(f"line {t.lineno}: the return is reachable on the branch where the file exists")
+    r3.check(bool(tests) and bool(ret_nodes) and not bad_paths, site(un), un.qualname, "every assignment of the returned name/path is followed by the os.path.exists test on all paths to the return, and the return lies on its false edge", why="; ".join(bad_paths) or "existence test or return not found")
     for (f, c, key, kind) in sites:
         if key != "open" or not f.qualname.startswith("pdfminer.image."):
             continue
